@@ -181,6 +181,16 @@ package saml
 //@    DetachedFrom(d, el) && sameCerts(storeRoots(CtxStore(ctx)), certs) && TrustedCerts(sp, el, certs)
 //@    |- CtxTrusted(sp, el, ctx)
 //@ ensures[C01,C18] sigok: err == nil && sp.SignatureVerifier == nil ==> SigOK(sp, el)
+//@ -- the "no Signature element" sentinel (on which parseResponse bases "the Response is unsigned, so Destination may be
+//@ -- absent") is returned only by the branch that found no Signature child: every other failure is a different error
+//@ assert@return[C01,C03] #3 (e error) sentinel_only_for_absent_signature_3: e != errSignatureElementNotPresent
+//@ assert@return[C01,C03] #4 (e error) sentinel_only_for_absent_signature_4: e != errSignatureElementNotPresent
+//@ assert@return[C01,C03] #5 (e error) sentinel_only_for_absent_signature_5: e != errSignatureElementNotPresent
+//@ assert@return[C01,C03] #6 (e error) sentinel_only_for_absent_signature_6: e != errSignatureElementNotPresent
+//@ assert@return[C01,C03] #7 (e error) sentinel_only_for_absent_signature_7: e != errSignatureElementNotPresent
+//@ assert@return[C01,C03] #8 (e error) sentinel_only_for_absent_signature_8: e != errSignatureElementNotPresent
+//@ assert@return[C01,C03] #9 (e error) sentinel_only_for_absent_signature_9: e != errSignatureElementNotPresent
+//@ assert@return[C01,C03] #11 (e error) sentinel_only_for_absent_signature_11: e != errSignatureElementNotPresent
 
 //@ contract unmarshalElement
 //@ trusted
